@@ -102,6 +102,18 @@ def run(rep):
     rep.analysed = {'function': q, 'derive_entries': len(entries), 'panic_sites_depending_on_options_or_runtime_arrays': len(relevant), 'rows': 64}
     unknown_atoms = set()
     n_rows = 0
+    # conditions inherited from the selection of the struct (C08's predicate) are fixed to "a struct taken by an entry point and not
+    # returned by one" - the derive guards are judged for structs that are emitted
+    from rules.c08 import classify_any
+    sel_cache = {}
+
+    def selection_atom(t):
+        if t[0] != 'any':
+            return None
+        k = id(t)
+        if k not in sel_cache:
+            sel_cache[k] = classify_any(ogp, t, st[1][1], ('tf', elem, 0))
+        return sel_cache[k]
     for vals in itertools.product([False, True], repeat=6):
         row = dict(zip(ATOMS + ['hs', 'rts'], vals))
 
@@ -112,6 +124,11 @@ def run(rep):
                 return (row['hs'],)
             if is_rts_any(t):
                 return (row['rts'],)
+            sa = selection_atom(t)
+            if sa == 'A':
+                return (False,)
+            if sa == 'B':
+                return (True,)
             if t == inner:
                 return (V('naga::TypeInner::Struct', members=(), span=0),)
             return None
